@@ -185,8 +185,10 @@ class KnownFindings:
 
     def __init__(self, prop: str):
         self.items = []
-        f = VERIF / "known_findings.txt"
-        if f.exists():
+        files = [VERIF / "known_findings.txt"] + sorted((VERIF / "known_findings.d").glob("*.txt"))
+        for f in files:
+            if not f.exists():
+                continue
             for line in f.read_text().split("\n"):
                 m = re.match(r"finding:\s+property=(\S+)\s+id=(\S+)\s+match=(\{.*?\})\s+::\s+(.*)$", line)
                 if m and m.group(1) == prop:
